@@ -713,6 +713,7 @@ func Run(tp *Tape, cfg Config, main func()) *Sim {
 		}
 		s.mu.Lock()
 		nExtra := 0
+		cfg := s.cfg
 		if cfg.JumpPerMille > 0 {
 			nExtra += len(jumpDurations)
 		}
@@ -821,4 +822,21 @@ func ChoosePool(n int) int {
 		return t.Choose(SMap, n)
 	}
 	return 0
+}
+
+// Calm ends the fault phase of a run: no more time jumps or GC points while
+// tasks are runnable, and uniform random picks (every runnable task is chosen
+// with probability 1/n at each step, i.e. a fair suffix with probability 1).
+// Liveness bounds are stated relative to this point.
+func Calm() {
+	s := cur.Load()
+	if s == nil {
+		return
+	}
+	s.mu.Lock()
+	s.cfg.JumpPerMille = 0
+	s.cfg.GCPerMille = 0
+	s.cfg.Policy = PolUniform
+	s.ev("calm", 0, 0, "")
+	s.mu.Unlock()
 }
